@@ -47,6 +47,7 @@ import (
 	"net/http/httptest"
 	"os"
 	"reflect"
+	"runtime"
 	"sort"
 	"strings"
 	"sync"
@@ -99,6 +100,9 @@ type vfC17MRig struct {
 	reconnected map[string]bool // id was closed and connected again in this case
 	closedOnce  map[string]bool
 	cleanOf     map[string]bool
+	will   string // "none" | "pass" | "drop" | "disconnect": clients carry a will and this is what the Publish pipeline says to it
+	ungraceful int // connections the harness ended without DISCONNECT
+	orphan string // proof that a registry entry will never be removed ("" = none)
 	servedAfterDelete map[string]bool // answered two PINGREQs after its session record was deleted and the registry had dropped it
 
 	timeout bool
@@ -174,6 +178,18 @@ func (r *vfC17MRig) Handle(ctx *context.Context) string {
 	cid := ""
 	if req, ok := ctx.GetRequest(context.DefaultNamespace).(*mqttprot.Request); ok && req.Client() != nil {
 		cid = req.Client().ClientID()
+		if req.PacketType() == mqttprot.PublishType {
+			// the Publish pipeline (an ACL / topic filter): its verdict on the will message
+			if resp, ok := ctx.GetResponse(context.DefaultNamespace).(*mqttprot.Response); ok {
+				switch r.will {
+				case "drop":
+					resp.SetDrop()
+				case "disconnect":
+					resp.SetDisconnect()
+				}
+			}
+			return ""
+		}
 	}
 	r.mu.Lock()
 	r.arrived++
@@ -187,18 +203,21 @@ func (r *vfC17MRig) Handle(ctx *context.Context) string {
 
 func (r *vfC17MRig) GetHandler(name string) (context.Handler, bool) { return r, true }
 
-func vfC17ConnectPacket(id string, clean bool) *packets.ConnectPacket {
+func vfC17ConnectPacket(id string, clean bool, will ...bool) *packets.ConnectPacket {
 	c := packets.NewControlPacket(packets.Connect).(*packets.ConnectPacket)
 	c.ProtocolName, c.ProtocolVersion = "MQTT", 4
 	c.ClientIdentifier = id
 	c.CleanSession = clean
 	c.Keepalive = 0
+	if len(will) > 0 && will[0] {
+		c.WillFlag, c.WillTopic, c.WillMessage = true, "vf/will/"+id, []byte("gone")
+	}
 	return c
 }
 
 // exchange writes CONNECT and reads the answer: "accepted", "unavailable", "timeout" or "other:…".
-func vfC17Exchange(conn net.Conn, id string, clean bool) string {
-	if err := vfC17ConnectPacket(id, clean).Write(conn); err != nil {
+func vfC17Exchange(conn net.Conn, id string, clean bool, will ...bool) string {
+	if err := vfC17ConnectPacket(id, clean, will...).Write(conn); err != nil {
 		return "other:write " + err.Error()
 	}
 	conn.SetReadDeadline(time.Now().Add(vfC17MqttWait))
@@ -347,6 +366,9 @@ func (r *vfC17MRig) closeCli(id string, graceful bool) {
 	if ok {
 		delete(r.held, id)
 		r.closedOnce[id] = true
+		if !graceful {
+			r.ungraceful++
+		}
 		r.logf("%s#%d close graceful=%v (held=%d)", id, c.seq, graceful, len(r.held))
 	}
 	r.mu.Unlock()
@@ -402,6 +424,8 @@ func (r *vfC17MRig) settle() bool {
 		return true
 	}
 	deadline := time.Now().Add(vfC17MqttWait)
+	var poll vfC17MPoller
+	poll.due()
 	for {
 		reg := r.reg.ids()
 		r.mu.Lock()
@@ -415,11 +439,100 @@ func (r *vfC17MRig) settle() bool {
 		if extra == 0 {
 			return true
 		}
+		if poll.due() {
+			if why := r.orphanProof(); why != "" {
+				r.mu.Lock()
+				r.orphan = why
+				r.mu.Unlock()
+				return true // the registry will not change any more: the verdict is the caller's
+			}
+		}
 		if time.Now().After(deadline) {
 			return false
 		}
 		time.Sleep(200 * time.Microsecond)
 	}
+}
+
+// vfC17MPoller: when a wait for the registry looks for the proof that waiting is pointless: 10 ms
+// after it began, then at 200 ms, 1 s and every second from then on.
+type vfC17MPoller struct {
+	start time.Time
+	n     int
+}
+
+func (p *vfC17MPoller) due() bool {
+	if p.start.IsZero() {
+		p.start = time.Now()
+		return false
+	}
+	at := time.Duration(p.n-1) * time.Second
+	switch p.n {
+	case 0:
+		at = 10 * time.Millisecond
+	case 1:
+		at = 200 * time.Millisecond
+	}
+	if time.Since(p.start) < at {
+		return false
+	}
+	p.n++
+	return true
+}
+
+// orphanProof: every connection the broker has accepted is handled by ONE goroutine (handleConn)
+// from its first byte until its registry entry has been removed again; entries are only ever removed
+// by that goroutine, by a takeover of the id, or by a session-delete notification. So when - in one
+// stop-the-world snapshot, with no harness action under way - the registry lists more ids than
+// there are connection goroutines, and nothing of the delete machinery is running or runnable, at
+// least one entry has nobody left who would ever remove it: a closed connection keeps its slot for
+// good. A completion signal in the negative, not a timing verdict. Goroutines of brokers of earlier
+// cases can only make the count larger (no proof). "" = no proof.
+func (r *vfC17MRig) orphanProof() string {
+	var buf []byte
+	for size := 1 << 20; ; size *= 8 {
+		buf = make([]byte, size)
+		if n := runtime.Stack(buf, true); n < size || size >= 1<<28 {
+			buf = buf[:n]
+			break
+		}
+	}
+	conns := 0
+	for _, g := range strings.Split(string(buf), "\n\n") {
+		lines := strings.Split(g, "\n")
+		waiting := strings.Contains(lines[0], "[select") || strings.Contains(lines[0], "[chan receive") || strings.Contains(lines[0], "[IO wait") || strings.Contains(lines[0], "[sync.")
+		isConn := false
+		for _, l := range lines[1:] {
+			if strings.HasPrefix(l, "\t") || strings.HasPrefix(l, "created by ") {
+				continue
+			}
+			switch {
+			case strings.Contains(l, "/mqttproxy.(*Broker).handleConn("):
+				isConn = true
+			case strings.Contains(l, "/mqttproxy.(*Broker).deleteSession("), strings.Contains(l, "/mqttproxy.(*mockStorage).delete"), strings.Contains(l, "/mqttproxy.(*Broker).reconnectWatcher("):
+				return "" // a delete notification is on its way
+			case strings.Contains(l, "/mqttproxy.(*Broker).watchDelete(") && !waiting:
+				return "" // the watcher has something to do
+			case strings.Contains(l, "/mqttproxy.(*Client).close("), strings.Contains(l, "/mqttproxy.(*Client).closeAndDelSession("):
+				if !isConn {
+					return "" // a teardown running outside a connection goroutine (takeover, writer)
+				}
+			}
+		}
+		if isConn {
+			conns++
+		}
+	}
+	reg := r.reg.ids() // after the snapshot: entries only go away while the harness does nothing
+	if conns >= len(reg) {
+		return ""
+	}
+	ids := make([]string, 0, len(reg))
+	for id := range reg {
+		ids = append(ids, id)
+	}
+	sort.Strings(ids)
+	return fmt.Sprintf("broker registry lists %d clients %v but only %d connection goroutines (Broker.handleConn) exist in the whole process, and no session-delete notification is running or pending", len(reg), ids, conns)
 }
 
 type vfC17MOp struct {
@@ -456,6 +569,7 @@ func TestVerifC17Mqtt(t *testing.T) {
 		capN := rapid.IntRange(1, 4).Draw(rt, "cap")
 		withAuth := rapid.Bool().Draw(rt, "authPipeline")
 		clean := rapid.Bool().Draw(rt, "cleanSession")
+		will := rapid.SampledFrom([]string{"none", "none", "pass", "drop", "disconnect"}).Draw(rt, "will")
 		nids := capN + rapid.IntRange(1, 4).Draw(rt, "extraIds")
 		nbursts := rapid.IntRange(2, 7).Draw(rt, "bursts")
 
@@ -463,7 +577,10 @@ func TestVerifC17Mqtt(t *testing.T) {
 		if withAuth {
 			spec.Rules = []*Rule{{When: &When{PacketType: Connect}, Pipeline: "vf-auth"}}
 		}
-		r := &vfC17MRig{cap: capN, held: map[string]*vfC17Cli{}, tookOver: map[string]bool{}, takingOver: map[string]bool{}, reconnected: map[string]bool{}, holdIDs: map[string]bool{},
+		if will != "none" {
+			spec.Rules = append(spec.Rules, &Rule{When: &When{PacketType: Publish}, Pipeline: "vf-publish-acl"})
+		}
+		r := &vfC17MRig{will: will, cap: capN, held: map[string]*vfC17Cli{}, tookOver: map[string]bool{}, takingOver: map[string]bool{}, reconnected: map[string]bool{}, holdIDs: map[string]bool{},
 			closedOnce: map[string]bool{}, cleanOf: map[string]bool{}, servedAfterDelete: map[string]bool{}}
 		r.cond = sync.NewCond(&r.mu)
 		// The harness proposes the port (so that it never has to look at the broker's listener):
@@ -496,7 +613,7 @@ func TestVerifC17Mqtt(t *testing.T) {
 			r.b.close()
 		}()
 
-		cfg := fmt.Sprintf("cap=%d auth=%v clean=%v ids=%d", capN, withAuth, clean, nids)
+		cfg := fmt.Sprintf("cap=%d auth=%v clean=%v ids=%d will=%s", capN, withAuth, clean, nids, will)
 		var script []string
 		nontrivial, ambiguousTakeover, sawTakeoverAtCap, sawRefused, sawReuse, sawGated := false, 0, false, 0, false, false
 		peakRegistry := 0
@@ -513,6 +630,10 @@ func TestVerifC17Mqtt(t *testing.T) {
 					}
 				}
 				r.viols = kept
+			}
+			if r.orphan != "" {
+				r.viols = append(r.viols, [2]string{"closed-connection-keeps-its-slot-for-good: registry entry that nobody will ever remove", "capacity released by a closed connection does not become usable again: " + r.orphan + "; connected clients the harness holds: " + fmt.Sprint(r.heldIDs())})
+				r.orphan = ""
 			}
 			viols := append([][2]string(nil), r.viols...)
 			hist := strings.Join(r.hist, "; ")
@@ -634,7 +755,7 @@ func TestVerifC17Mqtt(t *testing.T) {
 					}
 					r.cleanOf[id] = clean
 					r.mu.Unlock()
-					out := vfC17Exchange(fc, id, clean)
+					out := vfC17Exchange(fc, id, clean, r.will != "none")
 					r.mu.Lock()
 					switch {
 					case out == "accepted":
@@ -702,7 +823,7 @@ func TestVerifC17Mqtt(t *testing.T) {
 				tkDone := make(chan struct{})
 				go func() {
 					defer close(tkDone)
-					out := vfC17Exchange(tk.conn, tk.id, tk.clean)
+					out := vfC17Exchange(tk.conn, tk.id, tk.clean, r.will != "none")
 					r.mu.Lock()
 					tkOut = out
 					r.answered++
@@ -782,7 +903,7 @@ func TestVerifC17Mqtt(t *testing.T) {
 						}
 						r.cleanOf[id] = clean
 						r.mu.Unlock()
-						out := vfC17Exchange(fc, id, clean)
+						out := vfC17Exchange(fc, id, clean, r.will != "none")
 						r.mu.Lock()
 						switch {
 						case out == "accepted":
@@ -953,7 +1074,7 @@ func TestVerifC17Mqtt(t *testing.T) {
 				go func(i int, cli *vfC17Cli) {
 					defer wg.Done()
 					<-start
-					out := vfC17Exchange(cli.conn, cli.id, cli.clean)
+					out := vfC17Exchange(cli.conn, cli.id, cli.clean, r.will != "none")
 					r.mu.Lock()
 					outcomes[i] = out
 					r.answered++
@@ -1107,7 +1228,7 @@ func TestVerifC17Mqtt(t *testing.T) {
 				connsMu.Lock()
 				allConns = append(allConns, conn)
 				connsMu.Unlock()
-				out := vfC17Exchange(conn, id, clean)
+				out := vfC17Exchange(conn, id, clean, r.will != "none")
 				r.mu.Lock()
 				r.cleanOf[id] = clean
 				r.logf("probe %s#%d with %d held: %s", id, seq, heldN, out)
@@ -1148,7 +1269,13 @@ func TestVerifC17Mqtt(t *testing.T) {
 			}
 		}
 
-		vf.Class(fmt.Sprintf("cap=%d", capN), fmt.Sprintf("auth=%v", withAuth), fmt.Sprintf("clean=%v", clean))
+		vf.Class(fmt.Sprintf("cap=%d", capN), fmt.Sprintf("auth=%v", withAuth), fmt.Sprintf("clean=%v", clean), "will="+will)
+		r.mu.Lock()
+		ungracefulWithWill := r.ungraceful
+		r.mu.Unlock()
+		if will != "none" && ungracefulWithWill > 0 {
+			vf.Class("connection-with-a-will-ended-without-DISCONNECT (will verdict " + will + ")")
+		}
 		if sawGated {
 			vf.Class("gated-burst")
 		}
